@@ -81,6 +81,7 @@ MEMBERS = {
     "prop": "    @property\n    def p(self):\n        return getattr(self, '_p', 0)\n    @p.setter\n    def p(self, v):\n        self._p = v * 2\n",
     "super0": "    def who(self):\n        return 'K>' + super().who()\n",
     "super2": "    def who(self):\n        return 'K2>' + super(K, self).who()\n",
+    "super_nested": "    def who(self):\n        def inner():\n            return super(K, self).who()\n        def inner0(me):\n            return super().who()\n        return 'KN>' + inner() + inner0(self)\n",
     "init": "    def __init__(self):\n        self.i = 5\n",
     "isc": "    def __init_subclass__(cls, **kw):\n        super().__init_subclass__(**kw)\n        cls.sub = True\n",
     "isc_deco": "    @fdeco\n    def __init_subclass__(cls, **kw):\n        super().__init_subclass__(**kw)\n        cls.sub = 'decorated'\n",
@@ -177,6 +178,8 @@ def inspect_cls(ns):
 
 
 def check_case(part, case, cfgs):
+    import sys
+    sys.unraisablehook = lambda *a: None   # deep recursion inside the call script (both sides) is not our output
     bk, mk, kk, dk, ms, where = case
     src = PRE + place(class_source(bk, mk, kk, dk, ms), where)
     try:
